@@ -27,11 +27,14 @@ CHECKS: dict[str, dict] = {
              "function after every float operation: mutual exclusion and at-most-one-authorised for every monotone, idempotent, 0-fixing "
              "rounding (hence binary64 and exact arithmetic), all n, intervals, margins (incl. margin >= slot), positions and instants; exact "
              "theorems: margin separation (cyclic), non-empty window inside every cycle, authorised in every cycle, single runner always, "
-             "stranger never. Tie: bit-exact differential of the real functions against the model run with an executable binary64 "
+             "stranger never. Tie (1): translate/slot.py re-expresses the arithmetic of calculate_time_slot and is_runner_in_time_slot from the "
+             "Python AST on every run (Gen/Slot.lean, fl after every float operation, integer sub-expressions exact); `gen_slot_is_the_model` "
+             "(by rfl) makes every theorem a theorem about what the source says now, `translated_source_excludes` states the exclusion on the "
+             "translated functions; the execution-history block must assign nothing. Tie (2): bit-exact differential of the real functions against the model run with an executable binary64 "
              "round-to-nearest-even (floats exchanged as integer ratios) on grids + every slot boundary +-2 ulp + epoch offsets to 2e9; the "
              "property itself is evaluated on the real functions at every instant, so a failing input is concrete.",
         note=TB + "IEEE rounding is monotone/idempotent (hypothesis FlOK); Python float % is exact (checked on every instant used).",
-        technique="Lean 4 proof over Q parametric in the rounding function + bit-exact differential correspondence",
+        technique="Lean 4 proof over Q parametric in the rounding function; arithmetic regenerated from the source by a translator + bit-exact differential correspondence",
         ref="§5 C12",
     ),
 }
